@@ -878,7 +878,12 @@ class SFTPClient(BaseSFTP, ClosingContextManager):
             self.request_number += 1
         finally:
             self._lock.release()
-        self._send_packet(t, msg)
+        try:
+            self._send_packet(t, msg)
+        except EOFError as e:
+            # the connection is gone; further up a bare EOFError would pass
+            # for "end of file" (as it does when reading a response fails)
+            raise SSHException("Server connection dropped: {}".format(e))
         return num
 
     def _read_response(self, waitfor=None):
